@@ -744,6 +744,14 @@ class AndMaybeMatcher(AdditiveBiMatcher):
     def id(self):
         return self.a.id()
 
+    def spans(self):
+        # Like the union this matcher may stand in for (UnionMatcher.replace)
+        a = self.a
+        b = self.b
+        if a.is_active() and b.is_active() and a.id() == b.id():
+            return sorted(set(a.spans()) | set(b.spans()))
+        return a.spans()
+
     def next(self):
         if not self.a.is_active():
             raise mcore.ReadTooFar
